@@ -186,3 +186,28 @@ Theorem C01_calderon_partial :
          + (vtx x0 x1 x2 (vperm k 2) - vtx x0 x1 x2 k) * snd p)%Q).
 Proof. exact calderon_partial. Qed.
 Print Assumptions C01_calderon_partial.
+
+(* ---- the three Laplace kernels are the right derivatives of one Green's function (tie T: kernels regenerated
+   from core/numba_kernels.py by translators/py_kernels.py; proofs in Kernels/LaplaceDerivs.v, Coquelicot) ---- *)
+From Coq Require Import Reals.
+From Coquelicot Require Import Coquelicot.
+From BVgen Require Import NumbaKernels.
+From BV Require Import Kernels.LaplaceDerivs.
+
+(* d/dt G(x, y + t n_y) at t = 0  =  K_dl(x, y; n_y)   for x <> y *)
+Theorem C01_double_layer_kernel_is_normal_derivative :
+  forall x0 x1 x2 y0 y1 y2 nx0 nx1 nx2 ny0 ny1 ny2 p0 p1 : R, (x0, x1, x2) <> (y0, y1, y2) ->
+  is_derive (fun t => laplace_single_layer_regular_re x0 x1 x2 (y0 + t * ny0) (y1 + t * ny1) (y2 + t * ny2)
+                        nx0 nx1 nx2 ny0 ny1 ny2 p0 p1)%R 0%R
+            (laplace_double_layer_regular_re x0 x1 x2 y0 y1 y2 nx0 nx1 nx2 ny0 ny1 ny2 p0 p1).
+Proof. exact laplace_dl_is_normal_derivative. Qed.
+Print Assumptions C01_double_layer_kernel_is_normal_derivative.
+
+(* d/dt G(x + t n_x, y) at t = 0  =  K_adl(x, y; n_x)  for x <> y *)
+Theorem C01_adjoint_double_layer_kernel_is_normal_derivative :
+  forall x0 x1 x2 y0 y1 y2 nx0 nx1 nx2 ny0 ny1 ny2 p0 p1 : R, (x0, x1, x2) <> (y0, y1, y2) ->
+  is_derive (fun t => laplace_single_layer_regular_re (x0 + t * nx0) (x1 + t * nx1) (x2 + t * nx2) y0 y1 y2
+                        nx0 nx1 nx2 ny0 ny1 ny2 p0 p1)%R 0%R
+            (laplace_adjoint_double_layer_regular_re x0 x1 x2 y0 y1 y2 nx0 nx1 nx2 ny0 ny1 ny2 p0 p1).
+Proof. exact laplace_adl_is_normal_derivative. Qed.
+Print Assumptions C01_adjoint_double_layer_kernel_is_normal_derivative.
